@@ -43,6 +43,8 @@ type Run struct {
 	cleanups   []func()
 	// Arm lets a spec split a batch into fault-free / faulty etc. arms.
 	Arm string
+	// KnownHits counts hits of recorded known findings (by description).
+	KnownHits map[string]int
 }
 
 type hashWriter struct{ h uint64 }
@@ -110,6 +112,35 @@ func (r *Run) FailSig(code, sig, format string, args ...interface{}) {
 	panic(violationPanic{Violation{Code: code, Sig: sig, Msg: fmt.Sprintf(format, args...), Step: r.StepNo()}})
 }
 
+// ActiveKnown is the list of recorded (open) known findings for the property
+// being run; set by WorkerMain. Read-only at run time.
+var ActiveKnown []KnownFinding
+
+// KnownFinding is one entry of /verif/known_findings.json.
+type KnownFinding struct {
+	Property string `json:"property"`
+	Code     string `json:"code"`
+	Sig      string `json:"sig"`
+	What     string `json:"what"`
+	Status   string `json:"status"` // "open" or "fixed"
+	Commit   string `json:"commit,omitempty"`
+}
+
+// FailOrKnown reports a violation with a structural signature. If exactly
+// this (code, sig) is a recorded open known finding, the hit is counted and
+// the run CONTINUES (so the finding does not mask other checks); otherwise it
+// is a violation like any other.
+func (r *Run) FailOrKnown(code, sig, format string, args ...interface{}) {
+	for _, k := range ActiveKnown {
+		if k.Code == code && k.Sig == sig && k.Status != "fixed" {
+			r.KnownHits[k.What]++
+			r.Logf("KNOWN-FINDING hit (%s/%s): %s", code, sig, fmt.Sprintf(format, args...))
+			return
+		}
+	}
+	panic(violationPanic{Violation{Code: code, Sig: sig, Msg: fmt.Sprintf(format, args...), Step: r.StepNo()}})
+}
+
 // Harness aborts the run because the simulator itself is confused. This is
 // never reported as a violation (exit 2).
 func (r *Run) Harness(format string, args ...interface{}) {
@@ -163,6 +194,7 @@ type Outcome struct {
 	States     []string
 	Steps      int
 	Arm        string
+	KnownHits  map[string]int
 }
 
 // Execute runs fn once on the given tape with all global randomness pinned.
@@ -171,6 +203,7 @@ func Execute(fn func(*Run), tape *Tape, seed uint64, tier string) (out Outcome) 
 		Tape: tape, Seed: seed, Tier: tier,
 		Stats:  map[string]int64{},
 		states: map[string]struct{}{},
+		KnownHits: map[string]int{},
 	}
 	// Pin process-global randomness. GODEBUG=randseednop=0 must be set for
 	// Seed to take effect (checked by the worker at start-up).
@@ -196,6 +229,7 @@ func Execute(fn func(*Run), tape *Tape, seed uint64, tier string) (out Outcome) 
 		out.Nontrivial = r.Nontrivial
 		out.Steps = r.steps
 		out.Arm = r.Arm
+		out.KnownHits = r.KnownHits
 		for k := range r.states {
 			out.States = append(out.States, k)
 		}
